@@ -9,16 +9,19 @@ Verdict classes (ck.violation cls): 'regular-net-wires' (DefNet.wires raises Typ
 ('*' left as None in DefNet.wires), 'unrouted-net-wires' (wires/vias raise AttributeError without '+ ROUTED'),
 'comment-after-orientation' (a comment one blank behind a via orientation is read as vias), 'parse', 'attr-<section>', 'wires',
 'vias', 'wires-raise', 'vias-raise'. The correspondence accepts the demanded reading or one of the modelled as-is readings of
-wires (Model/Def.lean: netWires | netWiresAsIs | netWiresRaw); anything else is a broken tie.
+wires (Model/Def.lean: netWires | netWiresAsIs | netWiresRaw) — WHICH of them the tree under test shows is probed once per run
+(`probe_variants`) and every case is then compared with exactly that one; anything else is a broken tie.
 
 Supported subset (what the generator stays inside; found by reading the grammar and probing the lexer):
  * tokens separated by white space; non-negative integer coordinates (NUMBER is unsigned, int() rejects 1.0); signed STEP values;
  * names: the ID token, not starting with '+' or '#', not one of the literals accepted at the same place ('NEW' as a via name),
    regular-net via names that do not look like an orientation (N, FS, ...);
- * net pins before options/wiring (a '(' after routing points is always read as a point); every option / wiring keyword at most
-   once per net (a second '+ ROUTED' silently replaces the first); unique names per section;
+ * net pins before options/wiring (a '(' after routing points is always read as a point); every option keyword at most once per
+   net; one to three wiring statements per net (ROUTED / FIXED / COVER / NOSHIELD, repeated keywords included): ground truth of
+   wires/vias = the concatenation over all wiring statements in file order (audit finding 4 / D35: the tree before the repair kept
+   the last '+ ROUTED' statement only, class 'wiring-statements'); unique names per section;
  * one LAYER per pin; rows 'DO n BY 1 STEP w 0' or 'DO 1 BY n STEP 0 h' (the extractor keeps max(n, 1) and max(w, 0));
- * FIXED / COVER / NOSHIELD wiring only next to a ROUTED statement (wires/vias list the ROUTED wiring only);
+ * FIXED / COVER / NOSHIELD wiring is listed by wires/vias like ROUTED wiring;
  * first point of every wire explicit.
 """
 import json, random, re
@@ -290,8 +293,26 @@ def show_exc(kind): return {'AttributeError': '!attr', 'TypeError': '!type'}.get
 def wstr(where): return '/'.join(map(str, where)) if where else 'file'
 
 
-def check_net(dnet, routed_ast, where, findings, reqs):
-    """dnet: real DefNet; routed_ast: list of AST wires of the ROUTED statement or None"""
+def check_net(dnet, routed_ast, where, findings, reqs, routed_old=False):
+    """dnet: real DefNet; routed_ast: list of AST wires of all wiring statements in file order, or None;
+    routed_old: what the tree before D35 kept (wires of the last ROUTED statement or None; False = not applicable)"""
+    n0 = len(findings)
+    try:
+        _check_net(dnet, routed_ast, where, findings, reqs)
+    finally:
+        if routed_old is not False and routed_old != routed_ast and len(findings) > n0:
+            ow, ov = truth_net(routed_old)
+            kw, rw = call(lambda: canon_wires(dnet.wires))
+            kv, rv = call(lambda: canon_vias(dnet.vias))
+            if kw == 'ok' and kv == 'ok' and rw == ow and vias_match(rv, ov) is None:
+                for i in range(n0, len(findings)):
+                    cls, what, o, e, wh = findings[i]
+                    if cls in ('wires', 'vias'):
+                        findings[i] = ('wiring-statements', what + ' (it lists the wires of the LAST + ROUTED statement only: an earlier + ROUTED '
+                                       'statement is replaced, + FIXED / + COVER / + NOSHIELD wiring is never listed)', o, e, wh)
+
+
+def _check_net(dnet, routed_ast, where, findings, reqs):
     ws = wstr(where)
     exp_w, exp_v = truth_net(routed_ast)
     regular = bool(routed_ast) and any(w['width'] is None for w in routed_ast)
@@ -345,17 +366,64 @@ def check_wire_corr(dw, where, reqs):
     reqs.append(('wire-vias', where, [f'def wvias {e}'], r2 if k2 == 'ok' else show_exc(k2), None))
 
 
+VARIANTS = {'net-wires': ['wires', 'wiresasis', 'wiresraw'], 'net-vias': ['vias', 'viasasis'],
+            'wire-points': ['resolve', 'wpoints'], 'wire-vias': ['wvias']}
+_variant = {}
+
+
+def probe_variants():
+    """which of the modelled readings the tree under test shows, decided ONCE on three hand-made nets (special net with a
+    wildcard and a via, regular net with a wildcard, net without wiring); afterwards every case is compared with exactly
+    that reading. -> {request kind: driver command} (a kind is missing when no single reading fits all probes)"""
+    from kyupy import def_file
+    key = getattr(def_file, '__file__', '?')
+    if _variant.get('__key__') == key: return _variant
+    _variant.clear(); _variant['__key__'] = key
+    probes = [{'kind': 'direct', 'special': True, 'routed': [{'layer': 'm1', 'width': 100, 'opts': [], 'entries': [
+                  {'k': 'p', 'x': 0, 'y': 0}, {'k': 'p', 'x': None, 'y': 5}, {'k': 'v', 'name': 'v1'}, {'k': 'p', 'x': 7, 'y': None, 'ext': 3}]}]},
+              {'kind': 'direct', 'special': False, 'routed': [{'layer': 'm2', 'width': None, 'opts': '', 'entries': [
+                  {'k': 'p', 'x': 1, 'y': 2}, {'k': 'p', 'x': 5, 'y': None}, {'k': 'v', 'name': 'v2', 'orient': 'FS'}]}]},
+              {'kind': 'direct', 'special': True, 'routed': None}]
+    reqs = []
+    for i, case in enumerate(probes):
+        net = build_direct(case)
+        check_net(net, case['routed'], ('probe', i), [], reqs)
+        for j, dw in enumerate(getattr(net, 'routed', []) or []):
+            check_wire_corr(dw, ('probe', i, j), reqs)
+    lines = [l for r in reqs if r[2] for l in r[2]]
+    ans = common.run_driver(lines)
+    fits, k = {}, 0
+    for name, where, ls, real, truth in reqs:
+        if ls is None: continue
+        for l, a in zip(ls, ans[k:k + len(ls)]):
+            cmd = l.split(' ')[1]
+            fits.setdefault(name, {}).setdefault(cmd, True)
+            if a != real: fits[name][cmd] = False
+        k += len(ls)
+    for name, cmds in VARIANTS.items():
+        ok = [c for c in cmds if fits.get(name, {}).get(c)]
+        if ok: _variant[name] = ok[0]
+    return _variant
+
+
 def run_corr(reqs):
-    """returns list of (name, where, detail) for real results that equal neither the demanded nor the as-is model answer"""
+    """returns list of (name, where, detail) for real results that differ from the answer of the model reading that the
+    probe selected for the tree under test (exactly one reading per request kind, not "one of several")"""
     lines = [l for r in reqs if r[2] for l in r[2]]
     ans = common.run_driver(lines) if lines else []
+    var = probe_variants() if lines else {}
     bad, k = [], 0
     for name, where, ls, real, truth in reqs:
         if ls is None:
             bad.append((name, where, real)); continue
         got = ans[k:k + len(ls)]; k += len(ls)
-        if real not in got:
-            bad.append((name, where, f'real {real!r} vs model {got!r}'))
+        want = var.get(name)
+        if want is None:
+            bad.append((name, where, f'no modelled reading fits the tree under test on the probe nets (readings {VARIANTS.get(name)})'))
+            continue
+        sel = [a for l, a in zip(ls, got) if l.split(' ')[1] == want]
+        if not sel or real != sel[0]:
+            bad.append((name, where, f'real {real!r} vs model reading `{want}` {sel[:1]!r}'))
         if truth is not None and got[0] != truth:
             bad.append(('model-vs-ground-truth', where, f'model {got[0]!r} vs ground truth {truth!r}'))
     return bad
@@ -377,10 +445,13 @@ def gen_net(rng, names, special, comps, layers, vianames, pinnames):
     if rng.random() < 0.8:
         def stmt(kind):
             return {'t': 'wiring', 'k': kind, 'wires': [gen_wire(rng, special, layers, vianames) for _ in range(rng.choice([1, 1, 2, 2, 3, 4, 6]))]}
-        net['tail'].append(stmt('ROUTED'))
-        if rng.random() < 0.25:
-            for kind in rng.sample(['FIXED', 'COVER'] + ([] if special else ['NOSHIELD']), rng.choice([1, 1, 2])):
-                net['tail'].append(stmt(kind))
+        kinds = ['ROUTED', 'ROUTED', 'ROUTED', 'FIXED', 'COVER'] + ([] if special else ['NOSHIELD'])
+        r = rng.random()
+        if r < 0.55: ks = ['ROUTED']
+        elif r < 0.62: ks = [rng.choice(kinds[3:])]                      # a net with FIXED / COVER / NOSHIELD wiring only
+        elif r < 0.85: ks = [rng.choice(kinds), rng.choice(kinds)]       # two wiring statements (the same keyword twice included)
+        else: ks = [rng.choice(kinds) for _ in range(3)]                 # three
+        for kind in ks: net['tail'].append(stmt(kind))
     rng.shuffle(net['tail'])
     return net
 
@@ -624,11 +695,27 @@ def expected_file(ast):
                 d = {'name': n['name'], 'pins': [list(p) for p in n['pins']]}
                 for x in n['tail']:
                     if x['t'] == 'opt': d[x['k'].lower()] = x['v']
-                    else:
-                        d[x['k'].lower()] = [{'layer': w['layer'], 'width': None if w['width'] is None else str(w['width']),
-                                              'points': expected_entries(w, sp)} for w in x['wires']]
+                    else:   # the wires of all wiring statements, in file order, under `routed` (D35)
+                        d.setdefault('routed', []).extend(
+                            dict({'layer': w['layer'], 'width': None if w['width'] is None else str(w['width']),
+                                  'points': expected_entries(w, sp)}, **({'kind': x['k'].lower()} if wire_has_kind() else {}))
+                            for w in x['wires'])
                 e[t][n['name']] = d
     return e
+
+
+def wire_has_kind():
+    """the repaired tree (D35) records the keyword of the wiring statement on every DefWire"""
+    from kyupy import def_file
+    return hasattr(def_file.DefWire(), 'kind')
+
+
+def all_wires(n):
+    """AST wires of all wiring statements of a net in file order (None: no wiring statement); and what the tree before
+    D35 kept: the wires of the last ROUTED statement (None: no ROUTED statement)"""
+    ws = [x for x in n['tail'] if x['t'] == 'wiring']
+    routed = [x for x in ws if x['k'] == 'ROUTED']
+    return ([w for x in ws for w in x['wires']] if ws else None), (routed[-1]['wires'] if routed else None)
 
 
 def observed_file(d):
@@ -647,7 +734,8 @@ def observed_file(d):
                 for a, b in vars(x).items():
                     if a == 'routed' and b == []: continue   # "no ROUTED wiring": absent attribute or empty list
                     if isinstance(b, list) and b and hasattr(b[0], 'points'):
-                        dd[a] = [{'layer': w.layer, 'width': w.width, 'points': real_entries(w.points)} for w in b]
+                        dd[a] = [dict({'layer': w.layer, 'width': w.width, 'points': real_entries(w.points)},
+                                      **({'kind': w.kind} if hasattr(w, 'kind') else {})) for w in b]
                     else: dd[a] = val(b)
                 o[k][n] = dd
         else:
@@ -766,7 +854,11 @@ def real_routed(text):
     out = {}
     for tag, table in (('S:', d.specialnets), ('N:', d.nets)):
         for name, dnet in table.items():
-            v = enc_net(getattr(dnet, 'routed', None))
+            try:
+                v = enc_net(getattr(dnet, 'routed', None))
+                if getattr(dnet, 'routed', None): dnet.wires    # int(width) of every listed wire
+            except ValueError:
+                v = '?value'      # a width token that int() rejects: DefNet.wires raises
             out[tag + pct(name)] = '.' if v == '~' else v
     return out
 
@@ -800,9 +892,18 @@ def text_level(ck, texts, origin):
                               f'{k}: real {str(real.get(k))[:200]} != model {str(model.get(k))[:200]}', inp={'def_text': t})
 
 
+HANDOVER_TEXTS = [   # hand-over of the wiring statements (audit finding 4): repeated ROUTED, FIXED/COVER only, a width int() rejects
+    'DESIGN t ; SPECIALNETS 1 ; - VDD ( * VDD ) + ROUTED m1 100 ( 0 0 ) ( 50 * ) + ROUTED m2 100 ( 0 0 ) ( * 70 ) v1 + USE POWER ; END SPECIALNETS END DESIGN',
+    'DESIGN t ; SPECIALNETS 2 ; - VDD + FIXED m1 100 ( 0 0 ) ( 50 * ) ; - VSS + COVER m1 7 ( 0 0 ) v1 NEW m2 8 ( 1 1 ) ( 2 2 ) + ROUTED m3 9 ( 3 3 ) ( * 4 ) + FIXED m1 1 ( 5 5 ) ( 6 * ) ; END SPECIALNETS END DESIGN',
+    'DESIGN t ; NETS 2 ; - n + NOSHIELD m1 ( 0 0 ) ( 5 * ) + ROUTED m1 ( 0 0 ) v N + ROUTED m2 TAPER ( 1 1 ) ( * 2 ) ; - k ; END NETS END DESIGN',
+    'DESIGN t ; SPECIALNETS 1 ; - VDD + ROUTED m1 15 ( 0 0 ) ( 50 * ) ; END SPECIALNETS END DESIGN']
+HANDOVER_WIDTH = 'DESIGN t ; SPECIALNETS 1 ; - VDD + ROUTED m1 1.5 ( 0 0 ) ( 50 * ) ; END SPECIALNETS END DESIGN'
+
+
 def text_stream(ck, scale):
     rng = ck.rng
     try:
+        text_level(ck, HANDOVER_TEXTS + [HANDOVER_WIDTH], 'generated')
         text_level(ck, HAND_TEXTS, 'hand-written')
         text_level(ck, [mutate_text(rng, t) for t in HAND_TEXTS for _ in range(2 * scale)], 'mutated')
         for it in range(40 * scale):
@@ -835,6 +936,14 @@ def check_file(case):
         sect = path[0] if path else 'file'
         cls = 'comment-after-orientation' if ast.get('comment_after_orient') and sect == 'nets' else f'attr-{sect}'
         where = (path[0], path[1]) if len(path) >= 2 and path[0] in ('specialnets', 'nets') else None
+        okeys = set(o.get('keys', [])) if isinstance(o, dict) else set()
+        suffix = (len(path) == 3 and path[2] == 'routed' and isinstance(o, list) and isinstance(e, list) and len(o) < len(e)
+                  and first_diff(o, e[len(e) - len(o):]) is None)     # the tree kept the last ROUTED statement only
+        if where and (cls.startswith('attr-') or suffix or (len(path) == 2 and okeys & {'fixed', 'cover', 'noshield'})):
+            nn = [n for s in ast['stmts'] if s['t'] == where[0] for n in s['items'] if n['name'] == where[1]]
+            wk = [x['k'] for x in nn[0]['tail'] if x['t'] == 'wiring'] if nn else []
+            if wk and wk != ['ROUTED'] and (len(path) == 2 or path[2] == 'routed'):
+                cls = 'wiring-statements'   # D35: several wiring statements / FIXED, COVER, NOSHIELD wiring not under `routed`
         ps = '/'.join(map(str, path))
         findings.append((cls, f'extracted attribute {ps} differs from what the file states', {'path': ps, 'value': o}, {'value': e}, where))
     for s in ast['stmts']:
@@ -844,15 +953,12 @@ def check_file(case):
             where = (s['t'], n['name'])
             dnet = table.get(n['name'])
             if dnet is None: continue   # reported by the attribute comparison
-            routed = None
-            for x in n['tail']:
-                if x['t'] == 'wiring' and x['k'] == 'ROUTED': routed = x['wires']
+            routed, routed_old = all_wires(n)
             if ast.get('comment_after_orient') and diff: continue
-            check_net(dnet, routed, where, findings, reqs)
-            for x in n['tail']:
-                if x['t'] != 'wiring': continue
-                for i, dw in enumerate(getattr(dnet, x['k'].lower(), []) or []):
-                    check_wire_corr(dw, where + (x['k'], i), reqs)
+            check_net(dnet, routed, where, findings, reqs, routed_old=routed_old)
+            for k in ('routed', 'fixed', 'cover', 'noshield'):   # every DefWire record the tree keeps (before D35: one list per keyword)
+                for i, dw in enumerate(getattr(dnet, k, []) or []):
+                    check_wire_corr(dw, where + (k.upper(), i), reqs)
     return findings, run_corr(reqs), {'text_len': len(text)}
 
 
@@ -980,7 +1086,6 @@ def tags_of_file(ast):
                 for x in n['tail']:
                     if x['t'] != 'wiring': continue
                     tags.append(f"{s['t']}:{x['k']}")
-                    if x['k'] != 'ROUTED': continue
                     segs = len(x['wires'])
                     tags.append('segments:' + ('1' if segs == 1 else '2-3' if segs <= 3 else '4+'))
                     kinds = {('wild' if (e['k'] == 'p' and (e['x'] is None or e['y'] is None)) else
@@ -990,7 +1095,11 @@ def tags_of_file(ast):
                     if any(e.get('ext') is not None for w in x['wires'] for e in w['entries']): tags.append('has:ext')
                     if any(len([e for e in w['entries'] if e['k'] == 'p']) < 2 for w in x['wires']): tags.append('has:via-only-wire')
                     if segs >= 2 and 'wild' in kinds and kinds & {'via-plain', 'via-orient', 'via-array'}: nontrivial = True
-                if not any(x['t'] == 'wiring' for x in n['tail']): tags.append(f"{s['t']}:unrouted")
+                wk = [x['k'] for x in n['tail'] if x['t'] == 'wiring']
+                if not wk: tags.append(f"{s['t']}:unrouted")
+                else: tags.append(f'wiring-statements:{len(wk)}')
+                if wk.count('ROUTED') > 1: tags.append('wiring:ROUTED-repeated')
+                if wk and 'ROUTED' not in wk: tags.append('wiring:no-ROUTED')
     if ast['comments']: tags.append('fmt:comments')
     if ast.get('comment_after_orient'): tags.append('fmt:comment-after-orientation')
     return tags, nontrivial
@@ -1068,7 +1177,9 @@ def run(ck):
         oracle(ck, ck.scale * 8)
     ck.assumptions += ['grammar/lexer of def_file.py: modelled (Model/DefText.lean, round-trip theorem) and compared with lark on generated, hand-written and mutated texts (parse tree with all tokens); that lark implements the grammar as the model reads it is checked there, not proved; the transformer callbacks are exercised by the attribute oracle',
                        'ground truth of wires/vias: backwards search for the most recent explicit coordinate; array positions as a set per DO statement',
-                       'wires/vias list the ROUTED wiring only (FIXED/COVER/NOSHIELD wiring is compared as raw DefWire records)',
+                       'wires/vias list the wiring of ALL wiring statements of a net in file order (ROUTED, FIXED, COVER, NOSHIELD; D35); the tree '
+                       'before D35 is reported with class wiring-statements',
+                       f'model reading compared per request kind (probed once on three hand-made nets): { {k: v for k, v in probe_variants().items() if k != "__key__"} }',
                        'demanded listing for a regular-net wire: width None; for a net without + ROUTED: empty listings']
     return ck.finish(RULE)
 
